@@ -42,12 +42,57 @@ theorem Inv.size_le_len {a : Arr} (h : a.Inv) : a.size ≤ a.buf.length := Nat.l
 
 theorem check_of_true (m : Mem) (b : Bool) (h : b = true) : m.check b = m := by subst h; rfl
 
+/-- the block counter that belongs to a triple -/
+def own (t : Triple) (m : Mem) : Nat := match t with | .conf => m.live | .libc => m.liveLibc
+
+/-- 1 for the configured triple, 0 for the C library: what one block adds to `Mem.live` -/
+def cc (t : Triple) : Nat := match t with | .conf => 1 | .libc => 0
+
+theorem allocT_cases (m : Mem) (t : Triple) :
+    ((m.allocT t).1 = true ∧ (m.allocT t).2.live = m.live + cc t ∧ (m.allocT t).2.fault = m.fault) ∨
+    ((m.allocT t).1 = false ∧ (m.allocT t).2.live = m.live ∧ (m.allocT t).2.fault = m.fault) := by
+  cases t with
+  | conf =>
+    simp only [Mem.allocT_conf, cc]
+    cases h : m.alloc.1
+    · right; have := Mem.alloc_fst_false m h; simp [this]
+    · left; have := Mem.alloc_fst_true m h; simp [this]
+  | libc => left; simp [Mem.allocT, cc]
+
+/-- a request through the C library is never refused -/
+theorem allocT_libc_ok (m : Mem) : (m.allocT .libc).1 = true := rfl
+
+theorem own_allocT_ok (m : Mem) (t : Triple) (h : (m.allocT t).1 = true) : own t (m.allocT t).2 = own t m + 1 := by
+  cases t with
+  | conf => exact (Mem.alloc_fst_true m h).1
+  | libc => rfl
+
+theorem own_allocT_refused (m : Mem) (t : Triple) (h : (m.allocT t).1 = false) : own t (m.allocT t).2 = own t m := by
+  cases t with
+  | conf => exact (Mem.alloc_fst_false m h).1
+  | libc => simp [Mem.allocT] at h
+
+theorem own_pos_of_allocT (m : Mem) (t : Triple) (h : (m.allocT t).1 = true) : 0 < own t (m.allocT t).2 := by
+  rw [own_allocT_ok m t h]; omega
+
+theorem own_check (t : Triple) (m : Mem) (b : Bool) : own t (m.check b) = own t m := by
+  cases t <;> cases b <;> rfl
+
+theorem freeT_live (m : Mem) (t : Triple) (h : 0 < own t m) :
+    (m.freeT t).live = m.live - cc t ∧ (m.freeT t).fault = m.fault ∧ own t (m.freeT t) = own t m - 1 := by
+  cases t with
+  | conf =>
+    simp only [own] at h
+    have : ¬ m.live = 0 := by omega
+    simp [Mem.free, this, cc, own]
+  | libc =>
+    simp only [own] at h
+    have : ¬ m.liveLibc = 0 := by omega
+    simp [Mem.freeT, this, cc, own]
+
 theorem alloc_cases (m : Mem) :
     (m.alloc.1 = true ∧ m.alloc.2.live = m.live + 1 ∧ m.alloc.2.fault = m.fault) ∨
-    (m.alloc.1 = false ∧ m.alloc.2.live = m.live ∧ m.alloc.2.fault = m.fault) := by
-  cases h : m.alloc.1
-  · right; have := Mem.alloc_fst_false m h; simp [this]
-  · left; have := Mem.alloc_fst_true m h; simp [this]
+    (m.alloc.1 = false ∧ m.alloc.2.live = m.live ∧ m.alloc.2.fault = m.fault) := allocT_cases m .conf
 
 theorem free_live (m : Mem) (h : 0 < m.live) : m.free.live = m.live - 1 ∧ m.free.fault = m.fault := by
   unfold Mem.free
@@ -86,16 +131,16 @@ theorem expandCapacity_max (a : Arr) (m : Mem) (h : a.AtLimit) :
     split <;> rfl
 
 theorem expandCapacity_refused (a : Arr) (m : Mem) (h : ¬ a.AtLimit)
-    (hr : m.alloc.1 = false) : a.expandCapacity m = (.errAlloc, a, m.alloc.2) := by
+    (hr : (m.allocT a.triple).1 = false) : a.expandCapacity m = (.errAlloc, a, (m.allocT a.triple).2) := by
   have h1 : ¬ a.capacity = Gen.CC_MAX_ELEMENTS := fun e => h (Or.inl e)
   have h2 : ¬ a.newCapacity > Gen.CC_MAX_ELEMENTS / 8 := fun e => h (Or.inr e)
   simp [expandCapacity, h1, h2, hr]
 
 theorem expandCapacity_success (a : Arr) (m : Mem) (h : ¬ a.AtLimit)
-    (hr : m.alloc.1 = true) :
+    (hr : (m.allocT a.triple).1 = true) :
     a.expandCapacity m =
       (.ok, { a with buf := (Buf.mk a.newCapacity : Buf Nat).memcpy 0 a.buf 0 a.size, capacity := a.newCapacity },
-       (m.alloc.2.check (decide (a.size ≤ a.buf.length) && decide (a.size ≤ a.newCapacity))).free) := by
+       ((m.allocT a.triple).2.check (decide (a.size ≤ a.buf.length) && decide (a.size ≤ a.newCapacity))).freeT a.triple) := by
   have h1 : ¬ a.capacity = Gen.CC_MAX_ELEMENTS := fun e => h (Or.inl e)
   have h2 : ¬ a.newCapacity > Gen.CC_MAX_ELEMENTS / 8 := fun e => h (Or.inr e)
   simp [expandCapacity, h1, h2, hr]
@@ -106,31 +151,32 @@ theorem expandCapacity_err (a : Arr) (m : Mem) (h : (a.expandCapacity m).1 ≠ .
     (a.expandCapacity m).2.2.live = m.live ∧ (a.expandCapacity m).2.2.fault = m.fault := by
   by_cases hmax : a.AtLimit
   · simp [expandCapacity_max a m hmax]
-  · rcases alloc_cases m with ⟨h1, h2, h3⟩ | ⟨h1, h2, h3⟩
+  · rcases allocT_cases m a.triple with ⟨h1, h2, h3⟩ | ⟨h1, h2, h3⟩
     · rw [expandCapacity_success a m hmax h1] at h; simp at h
     · simp [expandCapacity_refused a m hmax h1, h2, h3]
 
 /-- a successful expansion: content and size unchanged, capacity strictly larger (C20) and still
 within the byte-size limit (A10), the new block has exactly the new capacity, ledger balanced (one
 block acquired, one released) -/
-theorem expandCapacity_ok (a : Arr) (m : Mem) (hinv : a.Inv) (hlive : 0 < m.live)
+theorem expandCapacity_ok (a : Arr) (m : Mem) (hinv : a.Inv)
     (h : (a.expandCapacity m).1 = .ok) :
     (a.expandCapacity m).2.1.abs = a.abs ∧ (a.expandCapacity m).2.1.size = a.size ∧
     (a.expandCapacity m).2.1.grow = a.grow ∧ (a.expandCapacity m).2.1.capacity = a.newCapacity ∧
     (a.expandCapacity m).2.1.buf.length = a.newCapacity ∧ a.capacity < a.newCapacity ∧
-    a.newCapacity ≤ Gen.CC_MAX_ELEMENTS / 8 ∧ m.alloc.1 = true ∧
+    a.newCapacity ≤ Gen.CC_MAX_ELEMENTS / 8 ∧ (m.allocT a.triple).1 = true ∧
     (a.expandCapacity m).2.2.live = m.live ∧ (a.expandCapacity m).2.2.fault = m.fault := by
   obtain ⟨h1, h2, h3, h4⟩ := hinv
   by_cases hmax : a.AtLimit
   · simp [expandCapacity_max a m hmax] at h
-  · rcases alloc_cases m with ⟨g1, g2, g3⟩ | ⟨g1, g2, g3⟩
+  · rcases allocT_cases m a.triple with ⟨g1, g2, g3⟩ | ⟨g1, g2, g3⟩
     · have hgt := newCapacity_gt a (by have := max8_lt; omega)
       have hle : a.newCapacity ≤ Gen.CC_MAX_ELEMENTS / 8 := Nat.le_of_not_lt (fun e => hmax (Or.inr e))
       have hc : (decide (a.size ≤ a.buf.length) && decide (a.size ≤ a.newCapacity)) = true := by
         simp; omega
       rw [expandCapacity_success a m hmax g1, hc]
-      have hf := free_live m.alloc.2 (by omega)
-      refine ⟨?_, rfl, rfl, rfl, by simp, hgt, hle, g1, by simp [hf.1, g2], by simp [hf.2, g3]⟩
+      have hf := freeT_live (m.allocT a.triple).2 a.triple (own_pos_of_allocT m a.triple g1)
+      refine ⟨?_, rfl, rfl, rfl, by simp, hgt, hle, g1, by simp only [Mem.check_true]; rw [hf.1, g2]; omega,
+        by simp only [Mem.check_true]; rw [hf.2.1, g3]⟩
       refine abs_congr _ a rfl ?_
       intro i hi
       simp only at hi ⊢
@@ -179,14 +225,14 @@ or — only when the array was exactly full — replaced by the strictly larger 
 def GrowFrame (a a' : Arr) (m : Mem) : Prop :=
   a'.size = a.size + 1 ∧ a'.size ≤ a'.capacity ∧ a'.capacity ≤ a'.buf.length ∧
   (a'.capacity = a.capacity ∨
-    (a.size = a.capacity ∧ a'.capacity = a.newCapacity ∧ a.capacity < a.newCapacity ∧ m.alloc.1 = true ∧
+    (a.size = a.capacity ∧ a'.capacity = a.newCapacity ∧ a.capacity < a.newCapacity ∧ (m.allocT a.triple).1 = true ∧
       a.newCapacity ≤ Gen.CC_MAX_ELEMENTS / 8)) ∧
   a'.grow = a.grow
 
 /-- a growing call can only be blocked on an exactly full array, by a refusing allocator
 (`CC_ERR_ALLOC`) or at the capacity limit (`CC_ERR_MAX_CAPACITY`, `AtLimit`) -/
 def Blocked (st : Stat) (a : Arr) (m : Mem) : Prop :=
-  (st = .errAlloc ∧ m.alloc.1 = false ∨ st = .errMaxCapacity ∧ a.AtLimit) ∧
+  (st = .errAlloc ∧ (m.allocT a.triple).1 = false ∨ st = .errMaxCapacity ∧ a.AtLimit) ∧
   a.size = a.capacity
 
 /-- the invariant survives every successful growing call, for every growth function -/
@@ -202,7 +248,7 @@ theorem GrowFrame.capacity_le {a a' : Arr} {m : Mem} (g : GrowFrame a a' m) : a.
 /-- everything about `cc_array_add` in one statement: either the call appended (`CC_OK`, the
 content is the old content followed by `x`, `GrowFrame`), or it was blocked by the allocator / the
 capacity limit and the *whole state* is unchanged; the ledger is balanced and nothing faulted -/
-theorem add_spec (a : Arr) (x : Nat) (m : Mem) (hinv : a.Inv) (hlive : 0 < m.live) :
+theorem add_spec (a : Arr) (x : Nat) (m : Mem) (hinv : a.Inv) :
     (((a.add x m).1 = .ok ∧ (a.add x m).2.1.abs = a.abs ++ [x] ∧ GrowFrame a (a.add x m).2.1 m) ∨
      (Blocked (a.add x m).1 a m ∧ (a.add x m).2.1 = a)) ∧
     (a.add x m).2.2.live = m.live ∧ (a.add x m).2.2.fault = m.fault := by
@@ -218,7 +264,7 @@ theorem add_spec (a : Arr) (x : Nat) (m : Mem) (hinv : a.Inv) (hlive : 0 < m.liv
   · have hfull : a.capacity ≤ a.size := by omega
     rw [add_full a x m hfull]
     by_cases hok : (a.expandCapacity m).1 = .ok
-    · obtain ⟨e1, e2, e3, e4, e5, e6, e7, e8, e9, e10⟩ := expandCapacity_ok a m hinv' hlive hok
+    · obtain ⟨e1, e2, e3, e4, e5, e6, e7, e8, e9, e10⟩ := expandCapacity_ok a m hinv' hok
       have hl : (a.expandCapacity m).2.1.size < (a.expandCapacity m).2.1.buf.length := by omega
       simp only [hok, bne_self_eq_false, Bool.false_eq_true, if_false]
       refine ⟨Or.inl ⟨by rw [store_eq _ x _ hl], by rw [store_abs _ x _ hl, e1], ?_⟩,
@@ -233,7 +279,7 @@ theorem add_spec (a : Arr) (x : Nat) (m : Mem) (hinv : a.Inv) (hlive : 0 < m.liv
       by_cases hmax : a.AtLimit
       · right; exact ⟨by rw [expandCapacity_max a m hmax], hmax⟩
       · left
-        rcases alloc_cases m with ⟨g1, _, _⟩ | ⟨g1, _, _⟩
+        rcases allocT_cases m a.triple with ⟨g1, _, _⟩ | ⟨g1, _, _⟩
         · rw [expandCapacity_success a m hmax g1] at hok; simp at hok
         · exact ⟨by rw [expandCapacity_refused a m hmax g1], g1⟩
 
@@ -297,7 +343,7 @@ theorem addAt_mid (a : Arr) (x i : Nat) (m : Mem) (h : i < a.size) :
 
 /-- everything about `cc_array_add_at`, for every index: positions `[0,size]` insert (or are
 blocked with the state untouched), every other index is rejected with the state untouched -/
-theorem addAt_spec (a : Arr) (x i : Nat) (m : Mem) (hinv : a.Inv) (hlive : 0 < m.live) :
+theorem addAt_spec (a : Arr) (x i : Nat) (m : Mem) (hinv : a.Inv) :
     ((i ≤ a.size ∧
       (((a.addAt x i m).1 = .ok ∧ (a.addAt x i m).2.1.abs = a.abs.insertIdx i x ∧
           GrowFrame a (a.addAt x i m).2.1 m) ∨
@@ -312,7 +358,7 @@ theorem addAt_spec (a : Arr) (x i : Nat) (m : Mem) (hinv : a.Inv) (hlive : 0 < m
   · by_cases heq : i = a.size
     · subst heq
       rw [addAt_end]
-      have := add_spec a x m hinv' hlive
+      have := add_spec a x m hinv'
       have e : a.abs.insertIdx a.size x = a.abs ++ [x] := by
         have := @List.insertIdx_length_self _ a.abs x
         rwa [abs_length] at this
@@ -333,7 +379,7 @@ theorem addAt_spec (a : Arr) (x i : Nat) (m : Mem) (hinv : a.Inv) (hlive : 0 < m
       · have hfull : a.size ≥ a.capacity := by omega
         simp only [hfull, if_true]
         by_cases hok : (a.expandCapacity m).1 = .ok
-        · obtain ⟨e1, e2, e3, e4, e5, e6, e7, e8, e9, e10⟩ := expandCapacity_ok a m hinv' hlive hok
+        · obtain ⟨e1, e2, e3, e4, e5, e6, e7, e8, e9, e10⟩ := expandCapacity_ok a m hinv' hok
           have hl : (a.expandCapacity m).2.1.size + 1 ≤ (a.expandCapacity m).2.1.buf.length := by omega
           have hi' : i ≤ (a.expandCapacity m).2.1.size := by omega
           simp only [hok, bne_self_eq_false, Bool.false_eq_true, if_false]
@@ -350,7 +396,7 @@ theorem addAt_spec (a : Arr) (x i : Nat) (m : Mem) (hinv : a.Inv) (hlive : 0 < m
           by_cases hmax : a.AtLimit
           · right; exact ⟨by rw [expandCapacity_max a m hmax], hmax⟩
           · left
-            rcases alloc_cases m with ⟨g1, _, _⟩ | ⟨g1, _, _⟩
+            rcases allocT_cases m a.triple with ⟨g1, _, _⟩ | ⟨g1, _, _⟩
             · rw [expandCapacity_success a m hmax g1] at hok; simp at hok
             · exact ⟨by rw [expandCapacity_refused a m hmax g1], g1⟩
 
